@@ -81,8 +81,11 @@ def chain_loop(ctx: Ctx, rule: str) -> None:
                 problems.append((f"the chain's return code is overwritten by something other than the constant 1: {first_line(s)}", v))
         failed = any(s.kind == "except" for s in v.steps)
         conds = norm.conj([v.cond_formula(i) for i, s in enumerate(v.steps) if s.kind == "cond"])
-        bad_result = any("in [None, 0]" in a for a in norm.atoms_of(conds)) and norm.implies(
-            conds, ("not", ("atom", next(a for a in norm.atoms_of(conds) if "in [None, 0]" in a))))
+        def accepted(a):  # the test "the step's result is None or 0", list or tuple spelling, either order
+            return any(f"in {o}{x}{c}" in a for o, c in (("[", "]"), ("(", ")")) for x in ("None, 0", "0, None"))
+
+        bad_result = any(accepted(a) for a in norm.atoms_of(conds)) and norm.implies(
+            conds, ("not", ("atom", next(a for a in norm.atoms_of(conds) if accepted(a)))))
         if failed:
             kinds.add("exception")
             if not stores:
